@@ -604,7 +604,11 @@ static void do_parse(const J &cmd, W &w) {
         opts->line_folding_modifier = (int) o->geti("fold", 0);
         opts->text_prefixing_modifier = (int) o->geti("prefix", 0);
         opts->max_frame_depth = (int) o->geti("max_frame_depth", 1);
-        enc = o->gets("enc", enc.c_str()); xws = o->gets("extra_ws", xws.c_str()); xeol = o->gets("extra_eol", xeol.c_str());
+        enc = o->gets("enc", enc.c_str());
+        // the extra character sets are byte strings: code units below 256 are handed over as single bytes (so that C1
+        // controls and other bytes >= 0x80 can be requested), anything above is dropped
+        auto bytes_of = [&](const char *k, std::string &dst) { const ustr *u = o->getu(k); if (u) { dst.clear(); for (char16_t c : *u) if (c > 0 && c < 256) dst.push_back((char) (unsigned char) c); } };
+        bytes_of("extra_ws", xws); bytes_of("extra_eol", xeol);
     }
     if (!enc.empty()) opts->default_encoding_name = enc.c_str();
     if (!xws.empty()) opts->extra_ws_chars = xws.c_str();
